@@ -355,7 +355,7 @@ func genCase(t *rapid.T) Case {
 			op["parameters"] = ps
 			r := op["responses"].(map[string]any)["200"].(map[string]any)
 			r["headers"] = map[string]any{"X-Deco": map[string]any{"type": "integer", "minimum": gen.Number(1), "maximum": gen.Number(5)},
-				"X-DecoArr": map[string]any{"type": "array", "items": map[string]any{"type": "string", "enum": []any{"red", "green"}}},
+				"X-DecoArr":  map[string]any{"type": "array", "items": map[string]any{"type": "string", "enum": []any{"red", "green"}}},
 				"X-DecoArr2": nested()}
 		}
 		op := doc["paths"].(map[string]any)[oi.Path].(map[string]any)[oi.Method].(map[string]any)
